@@ -12,15 +12,20 @@ REMOVE = {'pop', 'popleft'}
 OPPOSITE = {'left': 'right', 'right': 'left'}
 
 
-def ops_on(g, path, meths=None):
-    """[(cfg node, call, method)] for calls <path>.<meth>(...) in the CFG"""
+def ops_on(g, path, meths=None, fnode=None):
+    """[(cfg node, call, method)] for calls <path>.<meth>(...) in the CFG; with fnode, also through single-definition local aliases of <path>"""
     out = []
     for n in g.nodes:
         if n.kind in ('entry', 'exit', 'xexit', 'def'):
             continue
         for c in n.calls():
-            if isinstance(c.func, ast.Attribute) and dotted(c.func.value) == path and (meths is None or c.func.attr in meths):
-                out.append((n, c, c.func.attr))
+            if isinstance(c.func, ast.Attribute) and (meths is None or c.func.attr in meths):
+                recv = c.func.value
+                if fnode is not None and isinstance(recv, ast.Name):
+                    from .util import expand_locals
+                    recv = expand_locals(recv, fnode)
+                if dotted(recv) == path:
+                    out.append((n, c, c.func.attr))
     return out
 
 
@@ -447,8 +452,12 @@ def check_bounds(run, model, rule, floor=9):
             if isinstance(c.func, ast.Name) and c.func.id == 'deque':
                 n += 1
                 ml = next((kw.value for kw in c.keywords if kw.arg == 'maxlen'), c.args[1] if len(c.args) > 1 else None)
+                if ml is not None:
+                    from .util import expand_locals
+                    ml = expand_locals(ml, f.node, params=f.params)
                 ok = ml is not None and not (isinstance(ml, ast.Constant) and ml.value is None)
-                named = ok and isinstance(ml, ast.Attribute) and ml.attr.isupper()
+                named = ok and ((isinstance(ml, ast.Attribute) and ml.attr.isupper()) or (isinstance(ml, ast.Name) and ml.id.isupper())
+                                or (isinstance(ml, ast.Constant) and type(ml.value) is int and ml.value > 0))
                 tgt = ''
                 run.inst(rule, f, 'deque(maxlen=%s)' % (norm(ml) if ml is not None else None), bool(ok and named),
                          '' if ok and named else ('a buffer is created without a bound (or with an anonymous one): %s' % norm(c)), node=c, obligation=True)
